@@ -1484,6 +1484,35 @@ def soap_helper_paths(ctx, wrapper=False):
                 # the reply body is the envelope text or blank (an acknowledgement without payload)
                 polls['body'] = '  ' if mm.branch(B('body_blank')) else '<response-body/>'
                 return Adt('Poll', 0, [OK(RString(polls['body']))])
+            # the reply status as a number: symbolic in [100, 599], tied to the 4xx/5xx selector that error_for_status* decides on
+            if c.startswith('reqwest::Response::status'):
+                S = z3.Int('status_code')
+                if not polls.get('status_tied'):
+                    polls['status_tied'] = True
+                    mm.pc.append(z3.And(S >= 100, S <= 599, (S >= 400) == B('status_4xx_5xx')))
+                return Opaque('StatusCode', S)
+            if isinstance(deref(args[0]) if args else None, Opaque) and deref(args[0]).kind == 'StatusCode':
+                S = deref(args[0]).data
+                meth = c.split('::')[-1]
+                if meth in ('eq', 'ne') and len(args) == 2:
+                    o = deref(args[1])
+                    if isinstance(o, Opaque) and o.kind == 'StatusCode':
+                        o = o.data
+                    elif isinstance(o, tuple) and o[0] == 'item' and o[1].split('::')[-1] in STATUS_CONSTS:
+                        o = STATUS_CONSTS[o[1].split('::')[-1]]
+                    else:
+                        raise Unsupported('StatusCode compared with %r' % (o,))
+                    r = mm.branch(S == o)
+                    return r if meth == 'eq' else not r
+                if meth == 'as_u16':
+                    for v in (200, 201, 204, 400, 401, 403, 404, 500, 503):
+                        if mm.branch(S == v):
+                            return v
+                    mm.pc.append(z3.Or(S == 202, S == 502))
+                    return 202 if mm.branch(S == 202) else 502
+                rng = {'is_informational': (100, 199), 'is_success': (200, 299), 'is_redirection': (300, 399), 'is_client_error': (400, 499), 'is_server_error': (500, 599)}.get(meth)
+                if rng:
+                    return mm.branch(z3.And(S >= rng[0], S <= rng[1]))
             if c.startswith('reqwest::Response::error_for_status_ref'):
                 mm.events.append(('status_check',))
                 return OK(args[0]) if mm.branch(z3.Not(B('status_4xx_5xx'))) else ERR(Opaque('reqwest::Error', 'status'))
@@ -1618,6 +1647,10 @@ def emitted_method_bodies_oracle(env, items, info, m):
     n = len(out)
     out.append(O.Check('methods-found', 'client methods found in the output (%d)' % n, n >= 1))
     return out
+
+
+STATUS_CONSTS = {'OK': 200, 'CREATED': 201, 'ACCEPTED': 202, 'NO_CONTENT': 204, 'BAD_REQUEST': 400, 'UNAUTHORIZED': 401, 'FORBIDDEN': 403, 'NOT_FOUND': 404,
+                 'INTERNAL_SERVER_ERROR': 500, 'BAD_GATEWAY': 502, 'SERVICE_UNAVAILABLE': 503, 'GATEWAY_TIMEOUT': 504}
 
 
 def c16(tier):
